@@ -451,9 +451,12 @@ fn gen_op(s: &mut Choices, kind: Kind, st: &mut St) -> Option<Op> {
                 Op::RhctCmo(s.u8(), s.u8(), s.u8())
             } else {
                 st.isas += 1;
-                let len = match s.below(6) {
+                let len = match s.below(8) {
                     0 => s.below(4),
                     1 => 240 + s.below(20),
+                    2 => 41 + s.below(200),
+                    // (rarely) around the powers of two up to the largest string a node can hold
+                    3 if s.chance(64) => s.pick(&[511u32, 512, 1023, 1024, 4095, 4096, 32_767, 32_768, 65_524, 65_525]),
                     _ => s.below(41),
                 };
                 Op::RhctIsa(len)
@@ -475,9 +478,11 @@ fn gen_op(s: &mut Choices, kind: Kind, st: &mut St) -> Option<Op> {
             }
             1 => Op::RimtRc { id: s.u16(), seg: s.u16(), ats: s.bool(), pri: s.bool(), maps: gen_idmaps(s, st.iommus) },
             _ => {
-                let name_len = match s.below(5) {
+                let name_len = match s.below(7) {
                     0 => s.below(3),
                     1 => 250 + s.below(12),
+                    2 => 41 + s.below(210),
+                    3 if s.chance(64) => s.pick(&[511u32, 512, 1023, 1024, 4095, 4096]),
                     _ => s.below(41),
                 };
                 Op::RimtPlat { id: s.u16(), name_len, maps: gen_idmaps(s, st.iommus) }
@@ -518,7 +523,7 @@ fn gen_op(s: &mut Choices, kind: Kind, st: &mut St) -> Option<Op> {
                 }
             }
             2 => {
-                let n = if s.chance(10) { s.range(250, 255) } else { s.below(5) };
+                let n = if s.chance(10) { s.range(250, 255) } else if s.chance(10) { s.range(5, 249) } else { s.below(5) };
                 Op::Cxims { gran: s.below(7) as u8, maps: (0..n).map(|_| s.u64()).collect() }
             }
             _ => Op::Rdpas { bdf: gen_bdf(s), proto: s.below(2) as u8, base: s.u64() },
